@@ -19,8 +19,10 @@ CLAIMED = {
         "ALL u64 limit/offset values and every result length 0..=4 against the reference window "
         "ids[min(o,n)..min(o+l,n)]; absence of panics and arithmetic overflow included. Bounded model checking is the "
         "right level: the interesting inputs (offset+limit one past the end, overflow) are isolated points of a 2^128 space.",
-        "Outside the claim: the streaming Limit/Offset handlers used by unordered searches beyond what the C16 handler "
-        "harnesses cover, the sort comparator (needs DbImpl), result lengths > 4. Trusted: Kani/CBMC, rustc MIR semantics.",
+        "The streaming LimitHandler/OffsetHandler/LimitOffsetHandler of unordered searches are driven over <= 5 process() calls "
+        "with an empty condition list for ALL u64 limit/offset (on a reference to an uninitialised DbImpl that is never read). "
+        "Outside the claim: the sort comparator (needs DbImpl), equivalence with the unsliced search on a real database, "
+        "result lengths > 4/5. Trusted: Kani/CBMC, rustc MIR semantics.",
         "DESIGN.md §4 C16",
     ),
 }
@@ -143,6 +145,49 @@ CLAIMED["C17"] = (
     "the lemmas into a correct best-first search is an argument, not a check. Extra stubs: <[Path]>::sort_by replaced by a "
     "stable insertion sort using the real comparator, mem::swap by typed moves.",
     "DESIGN.md §4 C17",
+)
+
+MAP_NOTE = (
+    "Instantiation: MultiMapImpl/MapImpl/IndexedMapImpl<u64, u64, ArrStorage, ArrMap<C>> -- the real generic hash-map code "
+    "over an array-backed implementation of the code base's own MapData trait; StableHash for u64 is the identity, so the "
+    "solver controls collisions directly. The production instantiation <String, DbId, DbMapData> shares the generic source "
+    "but is not itself instantiated. Stubs: fmt::format, DbError::new."
+)
+CLAIMED["C19"] = (
+    "Termination of every probe loop of the hash structures from an ARBITRARY table (states and keys symbolic, constrained "
+    "only by what every history guarantees: len = number of Valid slots, len within the load factor; 'some slot is Empty' "
+    "is deliberately NOT assumed) under one operation with a symbolic key: insert, insert_or_replace, remove_key, "
+    "remove_value, iter_key, value/contains. Oracle: Kani's unwinding assertion with bound capacity+1 -- a probe sequence "
+    "that has not ended after visiting every slot once never ends -- plus functional post-conditions (exactly the right "
+    "slot changes). One inductive step covers histories of any length. Capacity 8 in quick (probe logic; rehash paths cut), "
+    "capacity 64 (the real minimum, where rehash is a no-op) in thorough.",
+    MAP_NOTE + " Outside: termination of anything above the hash maps; growth at len == 60; remove_key at capacity 64 (SAT > 20 min).",
+    "DESIGN.md §4 C19",
+)
+CLAIMED["C10"] = (
+    "The bidirectional map kernel behind aliases: IndexedMapImpl insert / remove_key / remove_value and MapImpl "
+    "insert/remove/value/contains/len are driven by 2-3 symbolic operations (keys and values from a small colliding "
+    "domain) from the empty map (growth 0 -> 64 included) and compared after every step with a reference bijection: both "
+    "directions are mutual inverses, a key has at most one value and a value at most one key, inserting takes the value "
+    "from whoever held it and replaces the key's previous value, nothing is stored twice.",
+    MAP_NOTE + " Outside (needs DbImpl): DbImpl::insert_alias itself, rejection of empty aliases and of aliases for edges, "
+    "removal of the alias with its node, alias resolution in queries -- so e.g. an alias-on-edge defect cannot be seen here.",
+    "DESIGN.md §4 C10",
+)
+CLAIMED["C15"] = (
+    "The evaluator kernels, each against the documented semantics transcribed as data: SearchControl and/or/flip for all "
+    "36 value pairs (truth tables of docs/queries.md); CountComparison::compare and compare_distance for all u64 pairs "
+    "(selection is the arithmetic relation, Stop only when nothing deeper can pass, never Finish); Comparison::compare "
+    "with both sides symbolic over all 9 value types (payloads <= 2 elements / <= 3 bytes): same type follows the "
+    "payload's own order (IEEE total order for floats), different types make Equal and the four ordering comparisons "
+    "false and NotEqual true, Contains/StartsWith/EndsWith hold only for the documented vector/element pairs; and the "
+    "real DbImpl::evaluate_conditions fold (modifiers None/Not/Beyond/NotBeyond, And/Or, nested Where) for 1-3 conditions "
+    "of the kinds that do not read the database, against a reference evaluator.",
+    "evaluate_conditions is called on a reference to an uninitialised DbImpl<ArrStorage> that is never read or dropped; "
+    "therefore only Distance/Edge/Node/Where-of-those conditions are covered (EdgeCount*, Ids, KeyValue, Keys read the "
+    "database and are outside). Contains on String properties is outside (str::contains exceeded memory). Stubs: "
+    "fmt::format, DbError::new.",
+    "DESIGN.md §4 C15",
 )
 
 NOT_APPLICABLE = {
